@@ -86,7 +86,8 @@ class RunGroup:
 
     def hooklog(self):
         if self.hook is None:
-            self.hook = build.load_hook(self.root)
+            # only the crates of this plan: the store may still hold records of crates of an earlier seed
+            self.hook = build.load_hook(self.root, crates=set(self.crate_of.values()))
         return self.hook
 
     def binary(self):
